@@ -7,6 +7,7 @@ import (
 	"fmt"
 	"math"
 	"math/big"
+	"reflect"
 	"regexp"
 	"time"
 
@@ -379,4 +380,87 @@ func fitsFloat(v mval, bits int) bool {
 	}
 	_, acc := f.Float64()
 	return acc == big.Exact
+}
+
+// ---------------------------------------------------------------------------------------------
+// stability of sources and destinations (independent of the numeric judge: bitwise / exact)
+
+// snapshotLeaf deep-copies *p (p a pointer to a leaf type).
+func snapshotLeaf(p interface{}) interface{} {
+	switch x := p.(type) {
+	case *big.Int:
+		if x == nil {
+			return (*big.Int)(nil)
+		}
+		return new(big.Int).Set(x)
+	case *big.Float:
+		if x == nil {
+			return (*big.Float)(nil)
+		}
+		return new(big.Float).Copy(x)
+	case nil:
+		return nil
+	}
+	rv := reflect.ValueOf(p)
+	if rv.Kind() != reflect.Ptr || rv.IsNil() {
+		return p
+	}
+	np := reflect.New(rv.Elem().Type())
+	np.Elem().Set(rv.Elem())
+	return np.Interface()
+}
+
+// sameLeaf: do *a and *b hold the same value, bit for bit (floats by IEEE bits, big numbers by
+// exact value, sign, precision; time.Time by instant and location name)?
+func sameLeaf(a, b interface{}) bool {
+	switch x := a.(type) {
+	case *big.Int:
+		y, ok := b.(*big.Int)
+		if !ok || (x == nil) != (y == nil) {
+			return false
+		}
+		return x == nil || x.Cmp(y) == 0
+	case *big.Float:
+		y, ok := b.(*big.Float)
+		if !ok || (x == nil) != (y == nil) {
+			return false
+		}
+		return x == nil || (x.Cmp(y) == 0 && x.Signbit() == y.Signbit() && x.Prec() == y.Prec() && x.IsInf() == y.IsInf())
+	case *float32:
+		y, ok := b.(*float32)
+		return ok && math.Float32bits(*x) == math.Float32bits(*y)
+	case *float64:
+		y, ok := b.(*float64)
+		return ok && math.Float64bits(*x) == math.Float64bits(*y)
+	case *time.Time:
+		y, ok := b.(*time.Time)
+		return ok && x.Equal(*y) && x.Location().String() == y.Location().String()
+	}
+	return reflect.DeepEqual(a, b)
+}
+
+func describeLeaf(p interface{}) string {
+	switch x := p.(type) {
+	case *big.Int:
+		if x == nil {
+			return "<nil *big.Int>"
+		}
+		return x.String()
+	case *big.Float:
+		if x == nil {
+			return "<nil *big.Float>"
+		}
+		return fmt.Sprintf("prec=%d %s", x.Prec(), x.Text('p', 0))
+	case *float32:
+		return fmt.Sprintf("float32 bits %08x", math.Float32bits(*x))
+	case *float64:
+		return fmt.Sprintf("float64 bits %016x", math.Float64bits(*x))
+	case nil:
+		return "<nil>"
+	}
+	rv := reflect.ValueOf(p)
+	if rv.Kind() == reflect.Ptr && !rv.IsNil() {
+		return fmt.Sprintf("%v", rv.Elem().Interface())
+	}
+	return fmt.Sprintf("%v", p)
 }
